@@ -53,7 +53,7 @@ ZID_RE = re.compile(r"\b\d{6}#[0-9A-Za-z]{2,3}\b")
 
 
 def plan(tier: str, seed: int) -> list[dict]:
-    scen = ["create_new", "reindex_edit_new", "reindex_shared_tag", "recreate", "reindex_new_page"]
+    scen = ["create_new", "reindex_edit_new", "reindex_shared_tag", "recreate", "reindex_new_page", "reindex_multi_zid_writeback", "reindex_multi_stamp_writeback"]
     if tier == "thorough":
         scen += [f"rand{i}" for i in range(16)]
     shards = 4 if tier == "quick" else 6
@@ -76,7 +76,7 @@ def build_scenario(name: str, seed: int, root: Path):
         _write(root, "sub/b.zo", "# B [[a]]\n\n- b new +shared\n- 240102#Cd has zid [[a#s]]\n\n~ P2 cancelled new\n")
         _write(root, "c.zo", "# C\n\n< blocked new #t1\n> parent new\n  * bullet\n    - deeper\n")
         return ["db", "create"], day
-    if name in ("reindex_edit_new", "reindex_shared_tag", "recreate", "reindex_new_page"):
+    if name in ("reindex_edit_new", "reindex_shared_tag", "recreate", "reindex_new_page", "reindex_multi_zid_writeback", "reindex_multi_stamp_writeback"):
         _write(root, "a.zo", "# A #pa\n\n- 240101#Aa note one +only_here\no P1 240101#Ab todo two\n  * k:: v w\n\n################################ S1 @c1\n- 240101#Ac old note\n- 310301 240101#Ad stamped before\n")
         _write(root, "sub/b.zo", "# B [[a]]\n\n- 240102#Ba b one +shared\n- 240102#Bb has link [[a#s]]\n\n~ P2 240102#Bc cancelled\n")
         _write(root, "c.zo", "# C\n\n< 240103#Ca blocked #t1 +shared\n")
@@ -89,6 +89,17 @@ def build_scenario(name: str, seed: int, root: Path):
             (root / "a.zo").write_text(t)
             t = (root / "sub/b.zo").read_text().replace("- 240102#Bb", "- brand new note without zid\n- 240102#Bb")
             (root / "sub/b.zo").write_text(t)
+            return ["db", "reindex"], day
+        if name == "reindex_multi_zid_writeback":
+            # THREE indexed pages that each need (only) a ZID write-back: the write-back of one page must not
+            # make another, not yet rewritten page look up to date
+            for rel, line in (("a.zo", "- appended to a without zid\n"), ("sub/b.zo", "o P2 appended to b without zid\n"), ("c.zo", "- appended to c without zid +shared\n")):
+                (root / rel).write_text((root / rel).read_text() + line)
+            return ["db", "reindex"], day
+        if name == "reindex_multi_stamp_writeback":
+            # three indexed pages that each need (only) a modify-date write-back
+            for rel, a, b in (("a.zo", "note one", "note one edited"), ("sub/b.zo", "b one", "b one edited"), ("c.zo", "blocked", "blocked edited")):
+                (root / rel).write_text((root / rel).read_text().replace(a, b))
             return ["db", "reindex"], day
         if name == "reindex_new_page":
             # a brand-new page (not yet in file_hash.json) next to an edited one and a deleted one
